@@ -213,7 +213,9 @@ func (p *parser) infix(node Node, first, prec int) (Node, error) {
 				return nil, err
 			}
 
-			right, err := p.projection(newPrec)
+			// a later filter belongs to the right-hand side like any other
+			// selector: a[?p].b[?q] filters each b, not the projected result
+			right, err := p.projection(projectionPrec)
 			if err != nil {
 				return nil, err
 			}
@@ -1704,7 +1706,7 @@ func (p *parser) primaryExpression() (Node, error) {
 			return nil, err
 		}
 
-		child, err := p.projection(precedence(lexer.FilterToken))
+		child, err := p.projection(projectionPrec)
 		if err != nil {
 			return nil, err
 		}
